@@ -28,7 +28,7 @@ pub static MONITOR: Monitor = Monitor {
 fn plan(tier: Tier) -> Plan {
     match tier {
         Tier::Quick => Plan {
-            cases: 60_000,
+            cases: 180_000,
             time_cap_s: 40,
             case_timeout_s: 20,
             exhaustive: false,
